@@ -406,6 +406,7 @@ func jobsFor(prop, tier string) []Job {
 		add("linkeddeep", fmt.Sprintf("linkedhashmap.deep.n%d", dn), 3, map[string]string{"c": "linkedhashmap"}, map[string]int{"n": dn, "deep": 1})
 		add("linkeddeep", fmt.Sprintf("linkedhashset.deep.n%d", dn), 3, map[string]string{"c": "linkedhashset"}, map[string]int{"n": dn, "deep": 1})
 		rewoundJobs("linked", q, add)
+		add("anysys", "linkedhashset.float", 1, map[string]string{"c": "linkedhashset", "elem": "float"}, nil)
 		treadmillJobs([]string{"linkedhashmap", "linkedhashset"}, add)
 		xlJobs(q, []string{"linkedhashmap", "linkedhashset"}, add)
 	case "C05":
